@@ -129,8 +129,23 @@ for _nm, _op in (('__ge__', operator.ge), ('__gt__', operator.gt), ('__lt__', op
     setattr(ObjFrame, _nm, _mk_cmp(_op))
 
 
+class _MetaS(type(pd.Series)):
+    def __instancecheck__(cls, x):
+        return isinstance(x, pd.Series)
+
+
+class ObjSeries(pd.Series, metaclass=_MetaS):
+    """pd.Series(...) inside bt: numeric data becomes object dtype so that symbolic reals can be assigned into it"""
+    def __new__(cls, *a, **k):
+        ser = pd.Series(*a, **k)
+        if ser.dtype != object and ser.dtype != bool and ser.dtype.kind in 'fiu':
+            ser = ser.astype(object)
+        return ser
+
+
 class PdShim:
     DataFrame = ObjFrame
+    Series = ObjSeries
 
     def __getattr__(self, k):
         return getattr(pd, k)
